@@ -295,12 +295,32 @@ theorem runFrames_low {cfg : Cfg} {h : Dispatch D R} (hh : Honest h) (c : Nat) (
     have := ih (fun e r' hr' => hno e r' (by simp [hr'])) _ h1.1 h1.2
     simpa [Code.runFrames] using this
 
+/-- the real loop (which may stop behind QUIT or at a command that blocked) keeps low connections low -/
+theorem runFramesD_pres {cfg : Cfg} {h : Dispatch D R} (hh : Honest h) (c : Nat) (pw : Bytes) (b : Nat)
+    (reqs : List Req) (hno : b = c → ∀ r ∈ reqs, isExactAuth cfg pw r = false) :
+    ∀ (s : Server D), s.password = some pw → low (stateOf s.conns b) →
+      (Code.runFramesD cfg h s c reqs).1.password = some pw ∧
+      low (stateOf (Code.runFramesD cfg h s c reqs).1.conns b) := by
+  induction reqs with
+  | nil => intro s hpw hb; exact ⟨hpw, hb⟩
+  | cons r rs ih =>
+    intro s hpw hb
+    have h1 := frame_low (cfg := cfg) hh s c r pw hpw b hb (fun e => hno e r (by simp))
+    have h2 := ih (fun e r' hr' => hno e r' (by simp [hr'])) _ h1.1 h1.2
+    unfold Code.runFramesD
+    simp only
+    split
+    · exact h1
+    · split
+      · exact h1
+      · exact h2
+
 theorem processBatch_low {cfg : Cfg} {h : Dispatch D R} (hh : Honest h) (s : Server D) (c : Nat) (pw : Bytes) (b : Nat)
     (reqs : List Req) (hno : b = c → ∀ r ∈ reqs, isExactAuth cfg pw r = false)
     (hpw : s.password = some pw) (hb : low (stateOf s.conns b)) :
     (Code.processBatch cfg h s c reqs).1.password = some pw ∧
     low (stateOf (Code.processBatch cfg h s c reqs).1.conns b) := by
-  have h1 := runFrames_low (cfg := cfg) hh c pw b reqs hno s hpw hb
+  have h1 := runFramesD_pres (cfg := cfg) hh c pw b reqs hno s hpw hb
   unfold Code.processBatch
   simp only
   split
@@ -376,9 +396,10 @@ theorem run_low {cfg : Cfg} {h : Dispatch D R} (hh : Honest h) (pw : Bytes) (b :
 
 /-! ### Pipelines -/
 
-/-- Nothing is kept back for a connection that stays low: the deferring loop is the plain loop. -/
+/-- Nothing is kept back for a connection that stays low: without a QUIT that ends the batch, the real loop is the plain loop. -/
 theorem runFramesD_low {cfg : Cfg} {h : Dispatch D R} (hh : Honest h) (c : Nat) (pw : Bytes)
-    (reqs : List Req) (hno : ∀ r ∈ reqs, isExactAuth cfg pw r = false) :
+    (reqs : List Req) (hno : ∀ r ∈ reqs, isExactAuth cfg pw r = false)
+    (hq : cfg.quitEndsBatch = true → ∀ r ∈ reqs, Code.isQuit cfg r = false) :
     ∀ (s : Server D), s.password = some pw → low (stateOf s.conns c) →
       Code.runFramesD cfg h s c reqs = ((Code.runFrames cfg h s c reqs).1, (Code.runFrames cfg h s c reqs).2, []) := by
   induction reqs with
@@ -387,8 +408,48 @@ theorem runFramesD_low {cfg : Cfg} {h : Dispatch D R} (hh : Honest h) (c : Nat) 
     intro s hpw hc
     have h1 := frame_low (cfg := cfg) hh s c r pw hpw c hc (fun _ => hno r (by simp))
     have hnb : ¬ stateOf (Code.processConnectionFrame cfg h s c r).1.conns c = some .blocked := h1.2.2
-    have := ih (fun r' hr' => hno r' (by simp [hr'])) _ h1.1 h1.2
-    simp only [Code.runFramesD, Code.runFrames, hnb, if_false, this]
+    have hnq : (cfg.quitEndsBatch && Code.isQuit cfg r) = false := by
+      cases hb : cfg.quitEndsBatch with
+      | false => rfl
+      | true => simp [hq hb r (by simp)]
+    have := ih (fun r' hr' => hno r' (by simp [hr'])) (fun hb r' hr' => hq hb r' (by simp [hr'])) _ h1.1 h1.2
+    simp only [Code.runFramesD, Code.runFrames, hnb, hnq, if_false, Bool.false_eq_true, this]
+
+/-- What follows a QUIT in the same read does not matter: the state and the replies are those of the batch cut behind the
+    QUIT — for ANY connection, authenticated or not, any dispatch, any frames before it. -/
+theorem runFramesD_behind_quit (cfg : Cfg) (hq : cfg.quitEndsBatch = true) (h : Dispatch D R) (c : Nat)
+    (q : Req) (hquit : Code.isQuit cfg q = true) (post : List Req) (pre : List Req) :
+    ∀ (s : Server D),
+      (Code.runFramesD cfg h s c (pre ++ q :: post)).1 = (Code.runFramesD cfg h s c (pre ++ [q])).1 ∧
+      (Code.runFramesD cfg h s c (pre ++ q :: post)).2.1 = (Code.runFramesD cfg h s c (pre ++ [q])).2.1 := by
+  induction pre with
+  | nil =>
+    intro s
+    simp [Code.runFramesD, hq, hquit]
+  | cons r rs ih =>
+    intro s
+    have := ih (Code.processConnectionFrame cfg h s c r).1
+    simp only [List.cons_append, Code.runFramesD]
+    split
+    · exact ⟨rfl, rfl⟩
+    · split
+      · exact ⟨rfl, rfl⟩
+      · exact ⟨this.1, by rw [this.2]⟩
+
+/-- … and exactly one reply per frame up to and including the QUIT, none behind it (when nothing before it ends the batch). -/
+theorem runFramesD_replies_length_le (cfg : Cfg) (h : Dispatch D R) (c : Nat) (reqs : List Req) :
+    ∀ (s : Server D), (Code.runFramesD cfg h s c reqs).2.1.length ≤ reqs.length := by
+  induction reqs with
+  | nil => intro s; simp [Code.runFramesD]
+  | cons r rs ih =>
+    intro s
+    have := ih (Code.processConnectionFrame cfg h s c r).1
+    simp only [Code.runFramesD]
+    split
+    · simp
+    · split
+      · simp
+      · simp only [List.length_cons]; exact Nat.succ_le_succ this
 
 theorem runFrames_append (cfg : Cfg) (h : Dispatch D R) (c : Nat) (xs ys : List Req) :
     ∀ s : Server D, Code.runFrames cfg h s c (xs ++ ys) =
